@@ -262,6 +262,9 @@ pub fn set_preference(name: String, value: String) -> Result<()> {
 
         // we set the value even if it was the same as the old value because this might override a potentially changed future user value
         let mut pref_manager = rules.pref_manager.borrow_mut();
+        if pref_manager.pref_to_string(&name) == crate::prefs::NO_PREFERENCE {
+            bail!("{} is an unknown MathCAT preference!", name);
+        }
         if name == "LanguageAuto" {
             let language_pref = pref_manager.pref_to_string("Language");
             if language_pref != "Auto" {
@@ -272,17 +275,18 @@ pub fn set_preference(name: String, value: String) -> Result<()> {
             }
         }
         let lower_case_value = value.to_lowercase();
-        if lower_case_value == "true" || lower_case_value == "false" {
-            pref_manager.set_api_boolean_pref(&name, value.to_lowercase() == "true");
-        } else {
-            match name.as_str() {
-                "Pitch" | "Rate" | "Volume" | "CapitalLetters_Pitch" | "MathRate" | "PauseFactor" => {
-                    pref_manager.set_api_float_pref(&name, to_float(&name, &value)?)
-                }
-                _ => {
-                    pref_manager.set_string_pref(&name, &value)?;
-                }
+        let is_float_pref = matches!(name.as_str(), "Pitch" | "Rate" | "Volume" | "CapitalLetters_Pitch" | "MathRate" | "PauseFactor");
+        if is_float_pref {
+            // checked first so that "true"/"false" are not stored as the value of a number-valued preference
+            pref_manager.set_api_float_pref(&name, to_float(&name, &value)?)
+        } else if pref_manager.is_boolean_pref(&name) {
+            if lower_case_value != "true" && lower_case_value != "false" {
+                bail!("SetPreference: preference'{}'s value '{}' must be 'true' or 'false'", name, value);
             }
+            pref_manager.set_api_boolean_pref(&name, lower_case_value == "true");
+        } else {
+            // "true"/"false" given for a string-valued preference is a string: its kind must not change with the value that is set
+            pref_manager.set_string_pref(&name, &value)?;
         };
         return Ok::<(), Error>(());
     })?;
